@@ -371,6 +371,15 @@ func TestVerifC05(t *testing.T) {
 		bs = []int{1, 2, 3, 6}
 	}
 	scs := scenarios()
+	if only := os.Getenv("VERIF_C05_ONLY"); only != "" {
+		var f []param
+		for _, sc := range scs {
+			if strings.HasPrefix(sc.Scn, only) {
+				f = append(f, sc)
+			}
+		}
+		scs = f
+	}
 	r.Bound("scenarios", len(scs))
 	if r.NShards < len(scs) && r.ReplayCase() == nil {
 		r.Cap(fmt.Sprintf("%d shards for %d scenarios: one command line per process, the scenarios beyond the shard count are skipped", r.NShards, len(scs)))
